@@ -86,6 +86,10 @@ def load_variants(prop):
         for m in json.load(open(sf))["mutants"]:
             if prop in m["detected_by"]:
                 out.append((m["id"], "fire", ("mutant", m["module"], m["kind"], m["desc"], m["ordinal"])))
+    ss_ = os.path.join(VERIF, "selftest", "sweep_silent.json")
+    if os.path.exists(ss_):
+        for m in json.load(open(ss_))["mutants"]:
+            out.append((m["id"] + "-equivalent", "silent", ("mutant", m["module"], m["kind"], m["desc"], m["ordinal"])))
     from selftest import variants
     for v in variants.VARIANTS:
         if prop in v["props"]:
@@ -109,7 +113,8 @@ def _run_one(args):
     elif payload[0] == "mutant":
         from selftest import mutants
         _t, mod, mkind, mdesc, mord = payload
-        new_src = mutants.mutate(sources[mod], kind=mkind, desc=mdesc, ordinal=mord)
+        fam2 = ("unwith", "unfinally", "dropfinally", "swapstmt", "exc_narrow", "exc_widen", "exc_other", "dropkw", "droparg")
+        new_src = (mutants.mutate2 if mkind in fam2 else mutants.mutate)(sources[mod], kind=mkind, desc=mdesc, ordinal=mord)
         if new_src is None:
             return (vid, kind, "skipped", "mutation site absent in %s" % mod)
         src = dict(sources)
